@@ -1,6 +1,238 @@
-(* Props/C13.v — stub while the correspondence is brought up *)
-From PV Require Import Lib.Base Model.Schema Model.Validate Gen.SchemaTables.
+(* Props/C13.v — schema validation rejects every structurally invalid message and
+   accepts every message that satisfies the declared constraints.
+   Only statements, `exact` proofs and Print Assumptions.
+
+   Model (Model/Validate.v, following validate.py with the repairs C13-1..3):
+     valid_instance prim keys S NIL M.. i   = validate.valid_instance(obj)
+     verify         prim keys S NIL M.. i   = obj.verify()   (the five overrides included)
+   over an instance tree i : inst (class, attribute members, text, (member, child) list,
+   extension attributes, extension elements), a schema S (table rows), the VALIDATOR key
+   list keys and the primitive lexical validators prim : key -> value -> bool.
+
+   Vocabulary (Proofs/Validate_lemmas.v):
+     reach S i j         j is i or a descendant of i through declared child members (any depth)
+     violated .. j       node j breaks one declared constraint of its own class row:
+                           - attr_bad : a required attribute is missing or empty, or a non-empty
+                             attribute has a declared type (type name resolved by valid() / value
+                             type class: enumeration, string, list, other base) whose test refuses it
+                           - text_bad : the class has a c_value_type and its stripped non-empty
+                             text is refused by it
+                           - card_bad : the number of children under a declared member is outside
+                             the c_cardinality entry (0 with min > 0; n > 0 with n < min or n > max)
+     good .. i           every node of i: every attribute good (required present; typed value
+                           accepted by a RESOLVING type), text good, every child count inside its
+                           bounds, the verify() override's own condition does not fail
+     plain_av S          classes whose verify() is AttributeValueBase's declare no attributes /
+                           children (they return early when there is no text)
+     has_violation / goodb   the executable forms of `exists j, reach /\ violated` and `good` *)
+From PV Require Import Lib.Base Model.Schema Model.Validate Gen.SchemaTables
+  Proofs.Schema_lemmas Proofs.Validate_lemmas Proofs.Validate_table.
 Open Scope N_scope.
+
+(* ---------------------------------------------------------------- rejection *)
+(* For EVERY schema, validator-key list, primitive validators and instance tree: if some
+   sub-instance reachable at any depth violates one declared constraint, both
+   valid_instance(root) and root.verify() raise. *)
+Theorem C13_rejects :
+  forall prim keys S NIL M1 M2 M3 M4 M5 M6 M7 M8 M9 M10 M11 i j,
+    plain_av S -> reach S i j -> violated prim keys S j ->
+    (exists e, valid_instance prim keys S NIL M1 M2 M3 M4 M5 M6 M7 M8 M9 M10 M11 i = Err e) /\
+    (exists e, verify prim keys S NIL M1 M2 M3 M4 M5 M6 M7 M8 M9 M10 M11 i = Err e).
+Proof. exact rejects_both. Qed.
+Print Assumptions C13_rejects.
+
+(* ... in particular over the tables regenerated from the working tree (plain_av is
+   kernel-evaluated on them), for every primitive-validator function *)
+Theorem C13_rejects_actual :
+  forall prim NIL M1 M2 M3 M4 M5 M6 M7 M8 M9 M10 M11 i j,
+    reach actual_schema i j -> violated prim validator_keys actual_schema j ->
+    (exists e, valid_instance prim validator_keys actual_schema NIL M1 M2 M3 M4 M5 M6 M7 M8 M9 M10 M11 i = Err e) /\
+    (exists e, verify prim validator_keys actual_schema NIL M1 M2 M3 M4 M5 M6 M7 M8 M9 M10 M11 i = Err e).
+Proof.
+  intros prim NIL M1 M2 M3 M4 M5 M6 M7 M8 M9 M10 M11 i j.
+  exact (rejects_both prim validator_keys actual_schema NIL M1 M2 M3 M4 M5 M6 M7 M8 M9 M10 M11 i j actual_plain_av).
+Qed.
+Print Assumptions C13_rejects_actual.
+
+(* the same through the executable predicate (what the harness evaluates per case) *)
+Theorem C13_rejects_decided :
+  forall prim keys S NIL M1 M2 M3 M4 M5 M6 M7 M8 M9 M10 M11 i,
+    plain_av S -> has_violation prim keys S i = true ->
+    (exists e, valid_instance prim keys S NIL M1 M2 M3 M4 M5 M6 M7 M8 M9 M10 M11 i = Err e) /\
+    (exists e, verify prim keys S NIL M1 M2 M3 M4 M5 M6 M7 M8 M9 M10 M11 i = Err e).
+Proof. exact rejects_decided. Qed.
+Print Assumptions C13_rejects_decided.
+
+Theorem C13_has_violation_sound :
+  forall prim keys S i, has_violation prim keys S i = true -> exists j, reach S i j /\ violated prim keys S j.
+Proof. exact has_violation_sound. Qed.
+Print Assumptions C13_has_violation_sound.
+
+(* ---------------------------------------------------------------- acceptance *)
+(* A message all of whose nodes satisfy their declared constraints (types resolving, override
+   side-conditions holding) is not rejected: valid_instance and verify both succeed. *)
+Theorem C13_accepts :
+  forall prim keys S NIL M1 M2 M3 M4 M5 M6 M7 M8 M9 M10 M11 i,
+    good prim keys S NIL M1 M2 M3 M4 M5 M6 M7 M8 M9 M10 M11 i ->
+    verify prim keys S NIL M1 M2 M3 M4 M5 M6 M7 M8 M9 M10 M11 i = ok /\
+    valid_instance prim keys S NIL M1 M2 M3 M4 M5 M6 M7 M8 M9 M10 M11 i = ok.
+Proof. exact accepts. Qed.
+Print Assumptions C13_accepts.
+
+Theorem C13_accepts_decided :
+  forall prim keys S NIL M1 M2 M3 M4 M5 M6 M7 M8 M9 M10 M11 i,
+    goodb prim keys S NIL M1 M2 M3 M4 M5 M6 M7 M8 M9 M10 M11 i = true ->
+    verify prim keys S NIL M1 M2 M3 M4 M5 M6 M7 M8 M9 M10 M11 i = ok /\
+    valid_instance prim keys S NIL M1 M2 M3 M4 M5 M6 M7 M8 M9 M10 M11 i = ok.
+Proof. exact accepts_decided. Qed.
+Print Assumptions C13_accepts_decided.
+
+(* the two sides of the statement never overlap *)
+Theorem C13_sides_exclusive :
+  forall prim keys S NIL M1 M2 M3 M4 M5 M6 M7 M8 M9 M10 M11 i,
+    plain_av S -> has_violation prim keys S i = true ->
+    goodb prim keys S NIL M1 M2 M3 M4 M5 M6 M7 M8 M9 M10 M11 i = false.
+Proof. exact spec_exclusive. Qed.
+Print Assumptions C13_sides_exclusive.
+
+(* ------------------------------------------- the regenerated tables, ALL rows *)
+(* every declared attribute type of every class resolves: a type name (or no type) to a
+   VALIDATOR key - the key of that very type, up to case, when its local name is an XSD
+   built-in type (dateTime, boolean, the integer kinds, duration, ...), the key string for a
+   name no XSD built-in carries; a value-type class to an existing row *)
+Theorem C13_types_resolve :
+  forall r a, In r actual_schema -> In a (k_attrs r) ->
+    match a_type a with
+    | TN t => type_resolves validator_keys t = true
+    | TNone => type_resolves validator_keys [] = true
+    | TC c => exists rt, find_row actual_schema c = Some rt
+    end.
+Proof. exact types_resolve. Qed.
+Print Assumptions C13_types_resolve.
+
+Theorem C13_type_resolves_meaning :
+  forall keys t, type_resolves keys t = true ->
+    exists k, resolve keys t = Some k /\
+      (mem_str (lower_ascii (local_name t)) XSD_BUILTIN = true -> lower_ascii k = lower_ascii (local_name t)) /\
+      (mem_str (lower_ascii (local_name t)) XSD_BUILTIN = false -> k = T_STRING).
+Proof. exact type_resolves_spec. Qed.
+Print Assumptions C13_type_resolves_meaning.
+
+(* and for EVERY type name whatsoever (not only the declared ones) valid() selects some
+   validator: it answers or raises NotValid, never KeyError / AttributeError *)
+Theorem C13_valid_never_keyerror :
+  forall prim t v, valid prim validator_keys t v = ok \/ valid prim validator_keys t v = Err NOT_VALID.
+Proof. intros prim t v. exact (valid_no_keyerror prim validator_keys t v string_key). Qed.
+Print Assumptions C13_valid_never_keyerror.
+
+(* the same for the base / list member of every c_value_type without enumeration *)
+Theorem C13_value_types_resolve :
+  forall r vt, In r actual_schema -> k_vtype r = Some vt -> v_maxlen vt = None -> v_enum vt = None ->
+    str_eqb (v_base vt) T_STRING = true \/
+    (str_eqb (v_base vt) T_LIST = true /\ exists m, v_member vt = Some m /\ type_resolves validator_keys m = true) \/
+    type_resolves validator_keys (v_base vt) = true.
+Proof. exact value_types_resolve. Qed.
+Print Assumptions C13_value_types_resolve.
+
+(* every enumeration any class declares is enforced, whatever its base: membership alone
+   decides what validate_value_type answers *)
+Theorem C13_enumerations_enforced :
+  forall r vt en, In r actual_schema -> k_vtype r = Some vt -> v_enum vt = Some en ->
+    forall prim keys v, validate_value_type prim keys v vt = if mem_str v en then ok else Err NOT_VALID.
+Proof. exact enumerations_enforced. Qed.
+Print Assumptions C13_enumerations_enforced.
+
+(* hence on these tables the resolution premise inside `violated` is always met: a non-empty
+   attribute value that the validator its declared type name selects refuses, or that is
+   outside the enumeration of its value-type class, IS a violation *)
+Theorem C13_no_typed_value_escapes :
+  forall prim r a t c0 v',
+    In r actual_schema -> In a (k_attrs r) -> a_type a = TN t ->
+    (forall k, resolve validator_keys t = Some k -> prim k (c0 :: v') = false) ->
+    typed_bad prim validator_keys actual_schema a (c0 :: v').
+Proof. exact typed_attr_bad_actual. Qed.
+Print Assumptions C13_no_typed_value_escapes.
+
+Theorem C13_no_enumerated_value_escapes :
+  forall prim r a c rt vt en v,
+    In r actual_schema -> In a (k_attrs r) -> a_type a = TC c -> find_row actual_schema c = Some rt ->
+    k_vtype rt = Some vt -> v_enum vt = Some en -> mem_str v en = false ->
+    typed_bad prim validator_keys actual_schema a v.
+Proof. exact enum_attr_bad_actual. Qed.
+Print Assumptions C13_no_enumerated_value_escapes.
+
+(* the classes overriding verify() are the five modelled ones, and the early return of
+   AttributeValueBase.verify skips nothing (plain_av) *)
 Theorem C13_overrides_known : unknown_overrides actual_schema = [].
-Proof. vm_compute. reflexivity. Qed.
+Proof. exact overrides_known. Qed.
 Print Assumptions C13_overrides_known.
+
+Theorem C13_attribute_value_rows_plain : plain_av actual_schema.
+Proof. exact actual_plain_av. Qed.
+Print Assumptions C13_attribute_value_rows_plain.
+
+(* ------------------------------------------------------------ non-vacuity *)
+(* c13_ex_valid: a samlp.Response (assertion with subject confirmation, conditions, authn
+   statement with SubjectLocality, attribute statement) and an md.EntityDescriptor, read back
+   from real objects: they satisfy `good` (so C13_accepts applies) ... *)
+Example C13_example_valid : c13_ex_valid <> [] /\ forallb ex_goodb c13_ex_valid = true.
+Proof. exact examples_valid_good. Qed.
+Print Assumptions C13_example_valid.
+
+(* ... c13_ex_violated: the same two messages with one constraint broken 1 to 3 levels below
+   the root (required attribute missing / empty, too few / too many children, boolean,
+   integer-kind and enumerated values): each has a reachable violated node that is not
+   the root (so C13_rejects applies through the recursion) *)
+Example C13_example_violated :
+  c13_ex_violated <> [] /\ forallb (fun i => ex_has_violation i && depth_ge2 i) c13_ex_violated = true.
+Proof. exact examples_violated. Qed.
+Print Assumptions C13_example_violated.
+
+Example C13_example_outcomes :
+  forallb (fun i => is_ok (ex_valid_instance i)) c13_ex_valid = true /\
+  forallb (fun i => negb (is_ok (ex_valid_instance i))) c13_ex_violated = true.
+Proof. exact examples_outcomes. Qed.
+Print Assumptions C13_example_outcomes.
+
+(* ---------------------------------------------- history: before the repairs *)
+(* FULL STATEMENTS that failed for the code as it was (kept visible):
+     C13_types_resolve          - 135 (class, attribute) pairs and 5 value types declared a type
+                                  name valid() could not resolve: a VALID value raised KeyError;
+     C13_enumerations_enforced  - 36 enumerations over a base other than the literal string were
+                                  never tested (12 accepted any value, 24 raised KeyError);
+     SubjectLocality DNSName    - valid_domain_name matched no host name at all.
+   The witnesses below are about the *_before_fix definitions and a literal key list. *)
+Theorem C13_types_before_fix_refuted :
+  exists typs v, typs <> [] /\
+    forallb (fun typ => match valid_before_fix hist_prim KEYS_BEFORE_FIX typ v with Err e => str_eqb e KEY_ERROR | Ok _ => false end) typs = true /\
+    forallb (fun typ => is_ok (valid hist_prim validator_keys typ v)) typs = true.
+Proof. exact valid_before_fix_refuted. Qed.
+Print Assumptions C13_types_before_fix_refuted.
+
+Theorem C13_repaired_types_still_check :
+  valid_before_fix hist_prim KEYS_BEFORE_FIX (s2l "positiveInteger") (s2l "0") = Err KEY_ERROR /\
+  valid hist_prim validator_keys (s2l "positiveInteger") (s2l "0") = Err NOT_VALID /\
+  valid hist_prim validator_keys (s2l "unsignedByte") (s2l "256") = Err NOT_VALID /\
+  valid hist_prim validator_keys (s2l "NMTOKEN") (s2l "a b") = Err NOT_VALID.
+Proof. exact invalid_before_fix_keyerror. Qed.
+Print Assumptions C13_repaired_types_still_check.
+
+Theorem C13_enumerations_before_fix_refuted :
+  (exists vt en v, v_enum vt = Some en /\ mem_str v en = false /\
+     validate_value_type_before_fix hist_prim KEYS_BEFORE_FIX v vt = ok /\
+     validate_value_type hist_prim validator_keys v vt = Err NOT_VALID) /\
+  (exists vt en v, v_enum vt = Some en /\ mem_str v en = true /\
+     validate_value_type_before_fix hist_prim KEYS_BEFORE_FIX v vt = Err KEY_ERROR /\
+     validate_value_type hist_prim validator_keys v vt = ok).
+Proof. exact enum_before_fix_refuted. Qed.
+Print Assumptions C13_enumerations_before_fix_refuted.
+
+Theorem C13_domain_name_before_fix_refuted :
+  forallb (fun h => negb (prim_domain_before_fix h)) HOSTS = true /\ prim_domain_before_fix (s2l "a.{ 1 }b.com") = true.
+Proof. exact domain_before_fix_refuted. Qed.
+Print Assumptions C13_domain_name_before_fix_refuted.
+
+Theorem C13_domain_name_repaired :
+  forallb prim_domain HOSTS = true /\ forallb (fun h => negb (prim_domain h)) NOT_HOSTS = true.
+Proof. exact domain_after_fix. Qed.
+Print Assumptions C13_domain_name_repaired.
